@@ -57,6 +57,12 @@ theorem values_eq :
 theorem change_eq (a : ChangeAtoms) : Extracted.changeCore a = changeCore a := by
   rcases a with ⟨x, y⟩; cases x <;> cases y <;> rfl
 
+/-- "the field actually changed" (/repo 8d1358b): by identity with the absent marker on a side, else
+    `bool(diffs.diff(old, new)) or old != new` -/
+theorem changed_eq (a : ChangedAtoms) : Extracted.changedCore a = changedCore a := by
+  rcases a with ⟨a1, a2, a3, a4, a5⟩
+  cases a1 <;> cases a2 <;> cases a3 <;> cases a4 <;> cases a5 <;> rfl
+
 theorem old_side_eq (a : SideAtoms) : Extracted.oldCore a = sideCore a := by
   rcases a with ⟨a1, a2, a3, a4, a5, a6, a7⟩
   cases a1 <;> cases a2 <;> cases a3 <;> cases a4 <;> cases a5 <;> cases a6 <;> cases a7 <;> rfl
